@@ -1,4 +1,5 @@
 import Proofs.Files
+import Proofs.FilesText
 
 /-!
 # C15 — Results on disk survive crashes and are never destroyed by a new search
@@ -270,6 +271,81 @@ theorem C15_torn_row_is_loaded (c : Content) (j : Job) (h : WellFormed c) :
   | nil => exact absurd rfl hne
   | cons l rows => simpa [reload, jobsOf] using hload (l :: rows) hr
 
+/-! ## the bytes (text layer, `Model/FilesText.lean`)
+
+The theorems above speak about lines; what is on disk is text.  A *concrete* file gives every line
+its cells — ANY characters: commas, quotes, bare carriage returns, line feeds, leading or trailing
+blanks, empty cells, non-ASCII.  `bytesOf lt` renders it the way the two writers do (the evaluator's
+`csv.DictWriter` for the lines without the `pareto_efficient` cell, `DataFrame.to_csv(lineterminator
+= lt)` of the end-of-search rewrite for the lines with it), `parseFile` is the `csv.reader` state
+machine, `abstract` classifies the records read back against the header record. -/
+
+/-- **C15 (bytes read back).**  Whatever the cells hold, the bytes of a results file whose lines were
+written by the evaluator and by the rewrite in the `\r\n` dialect read back to exactly one record per
+line, each with exactly its cells: no row is split, merged, truncated or altered. -/
+theorem C15_bytes_read_back (cl : List CLine) (hne : ∀ l ∈ cl, l.cells ≠ []) :
+    Csv.parseFile (bytesOf crlf cl) = cl.map (·.cells) := by
+  rw [bytesOf_crlf]
+  exact Csv.parse_renderFile _ (by
+    intro r hr
+    obtain ⟨l, hl, rfl⟩ := List.mem_map.1 hr
+    exact hne l hl)
+
+/-- **C15 (bytes → lines).**  For a table whose cells agree with its lines (`Consistent`: the header
+names the columns, every row shows its job id under `job_id` and has the header's number of cells, or
+one less when it was appended after a rewrite) the checker's reading of the bytes is the content of
+the file model. -/
+theorem C15_bytes_abstract (sid : Nat) (cl : List CLine) (h : Consistent sid cl) :
+    abstract sid (bytesOf crlf cl) = cl.map (·.line) :=
+  (bytes_consistent h).2
+
+/-- **C15 (bytes at every crash point).**  For every history and EVERY crash point at which
+`results.csv` exists, and every assignment of cells to its lines (any characters) that agrees with
+them: the bytes on disk read back to one record per line with exactly those cells, and the check run
+on the bytes (`visibleOk ∘ abstract`) accepts them — header, then one complete row per dumped
+evaluation, all of them finished. -/
+theorem C15_bytes_at_crash (s₀ : St) (h₀ : Vis s₀) (runs : List Run) (hok : RunsOK s₀ runs)
+    (p : List Ev) (hp : p <+: searchFiles fixed s₀ runs) (sid : Nat) (cl : List CLine)
+    (hc : get (execAll s₀ p).fs .results = some (cl.map (·.line))) (hcl : Consistent sid cl) :
+    let s := execAll s₀ p
+    let t := bytesOf crlf cl
+    Csv.parseFile t = cl.map (·.cells) ∧
+      visibleOk (some (abstract sid t)) s.done s.dumped = true := by
+  intro s t
+  refine ⟨(bytes_consistent hcl).1, ?_⟩
+  show visibleOk (some (abstract sid (bytesOf crlf cl))) _ _ = true
+  rw [(bytes_consistent hcl).2]
+  rcases C15_prefix_wellformed s₀ h₀ runs hok p hp with ⟨h1, _⟩ | ⟨c, h1, h2, h3, h4⟩
+  · rw [h1] at hc; cases hc
+  · rw [h1] at hc; cases hc
+    exact (C15_checker _ _ _).2 ⟨h2, h3, h4⟩
+
+/-- **C15 (cells).**  The complete check run on the bytes (`bytesOk`: shape, truthfulness, completeness
+AND the cells the run-functions logged, looked up by column name) accepts the bytes of every crash
+point, for every expectation list that tells the truth about the rows. -/
+theorem C15_bytes_checker_accepts (s₀ : St) (h₀ : Vis s₀) (runs : List Run) (hok : RunsOK s₀ runs)
+    (p : List Ev) (hp : p <+: searchFiles fixed s₀ runs) (sid : Nat) (h : CLine) (rows : List CLine)
+    (hc : get (execAll s₀ p).fs .results = some ((h :: rows).map (·.line)))
+    (hcl : Consistent sid (h :: rows)) (jc : Nat) (hjc : colIdx jobIdName h.cells = some jc)
+    (hnd : (rows.map (fun l => idOfRec jc l.cells)).Nodup) (exp : List Expect)
+    (hexp : ∀ e ∈ exp, ∀ l ∈ rows, idOfRec jc l.cells = some e.id →
+      ∀ q ∈ e.cells, Csv.lookupByName h.cells l.cells q.1 = some q.2) :
+    bytesOk sid (some (bytesOf crlf (h :: rows))) (execAll s₀ p).done (execAll s₀ p).dumped exp = true := by
+  have h1 := (C15_bytes_at_crash s₀ h₀ runs hok p hp sid (h :: rows) hc hcl).2
+  have h2 := cellsOk_consistent hcl hjc hnd exp hexp
+  simp only [bytesOk, Option.map_some, Bool.and_eq_true]
+  exact ⟨h1, h2⟩
+
+/-- **C15 (what the repair of the rewrite's dialect bought).**  Before commit `4981fdf` the rewrite wrote
+its lines with pandas' default terminator `\n` (`lf`).  That dialect is harmless exactly as long as no
+cell of a REWRITTEN line holds a carriage return: then the file still reads back record for record
+(the lines appended by the evaluator may hold any characters).  With a carriage return in a rewritten
+cell a row is split — kernel-evaluated witness `crTable` below. -/
+theorem C15_lf_rewrite_safe_without_cr (cl : List CLine) (hne : ∀ l ∈ cl, l.cells ≠ [])
+    (hcr : ∀ l ∈ cl, l.line.rewritten = true → ∀ s ∈ l.cells, '\r' ∉ s) :
+    Csv.parseFile (bytesOf lf cl) = cl.map (·.cells) :=
+  parse_bytesOf_lf cl hne hcr
+
 /-! ## non-vacuity, regressions for the repaired defects -/
 
 section examples
@@ -371,6 +447,58 @@ example : wellFormedPrefix [.header false, .row j0 false, .torn j1] [j0, j1] [] 
 example : reload [] = .error .emptyData := rfl
 example : reload [.header false] = .error .noRows := rfl
 example : reload [.header false, .row j0 true] = .error .tooManyFields := rfl
+
+
+/-! the text layer: a multi-objective table after the rewrite, then one appended row; the metadata
+cell of job 0 holds a bare carriage return, a comma, a quote and a line feed -/
+
+def hostileCell : Csv.Text := ['a', '\r', 'b', ',', '"', '\n', ' ']
+def tHdr : CLine := ⟨.header true, [['o'], jobIdName, ['m'], paretoName]⟩
+def tRow0 : CLine := ⟨.row j0 true, [['1'], ['0'], hostileCell, ['T']]⟩
+def tRow1 : CLine := ⟨.row j1 false, [['2'], ['1'], []]⟩
+def tTable : List CLine := [tHdr, tRow0, tRow1]
+
+/-- the hypotheses of the text theorems hold for it -/
+example : Consistent 0 tTable :=
+  ⟨tHdr, [tRow0, tRow1], true, 1, rfl, rfl, by decide, by decide, by
+    intro l hl
+    simp only [List.mem_cons, List.not_mem_nil, or_false] at hl
+    rcases hl with rfl | rfl
+    · exact ⟨0, true, rfl, fun _ => rfl, by decide, by decide, by decide⟩
+    · exact ⟨1, false, rfl, fun _ => rfl, by decide, by decide, by decide⟩⟩
+
+/-- repaired code (`\r\n` handed to `to_csv`): three records, the hostile cell intact, the check accepts -/
+example : Csv.parseFile (bytesOf crlf tTable) = tTable.map (·.cells) := by decide +kernel
+example : bytesOk 0 (some (bytesOf crlf tTable)) [j0, j1] [j0, j1]
+    [⟨0, [(['m'], hostileCell)]⟩, ⟨1, [(['m'], [])]⟩] = true := by decide +kernel
+/-- the cell check notices an altered cell -/
+example : bytesOk 0 (some (bytesOf crlf tTable)) [j0, j1] [j0, j1] [⟨0, [(['m'], ['a', 'b'])]⟩] = false := by
+  decide +kernel
+
+/-- the same table, the metadata cell of job 0 holding just a bare carriage return between letters -/
+def crTable : List CLine := [tHdr, ⟨.row j0 true, [['1'], ['0'], ['a', '\r', 'b'], ['T']]⟩, tRow1]
+
+/-- the rewrite with pandas' default terminator `\n` (before the repair): the carriage return is
+written unquoted and every reader ends the record there — FOUR records for two evaluations, the
+second one fits no row, and the check on the bytes rejects the file although both evaluations
+finished and were dumped; with `\r\n` the same table is fine -/
+example : (Csv.parseFile (bytesOf lf crTable)).length = 4 := by decide +kernel
+example : abstract 0 (bytesOf lf crTable)
+    = [.header true, .row j0 false, .torn ⟨0, 0⟩, .row j1 false] := by decide +kernel
+example : bytesOk 0 (some (bytesOf lf crTable)) [j0, j1] [j0, j1] [] = false := by decide +kernel
+example : bytesOk 0 (some (bytesOf crlf crTable)) [j0, j1] [j0, j1] [⟨0, [(['m'], ['a', '\r', 'b'])]⟩] = true := by
+  decide +kernel
+/-- … while a cell with a comma and a line feed survives the `\n` dialect (it is quoted) -/
+example : abstract 0 (bytesOf lf [tHdr, ⟨.row j0 true, [['1'], ['0'], ['a', ',', '\n'], ['T']]⟩])
+    = [.header true, .row j0 true] := by decide +kernel
+
+/-- the hypotheses of `C15_lf_rewrite_safe_without_cr` hold for a table whose rewritten row holds a comma,
+a quote and a line feed, and whose appended row holds a carriage return -/
+def lfSafeTable : List CLine :=
+  [tHdr, ⟨.row j0 true, [['1'], ['0'], ['a', ',', '"', '\n'], ['T']]⟩, ⟨.row j1 false, [['2'], ['1'], ['a', '\r', 'b']]⟩]
+example : (∀ l ∈ lfSafeTable, l.cells ≠ []) ∧
+    (∀ l ∈ lfSafeTable, l.line.rewritten = true → ∀ s ∈ l.cells, '\r' ∉ s) := by decide
+example : abstract 0 (bytesOf lf lfSafeTable) = [.header true, .row j0 true, .row j1 false] := by decide +kernel
 
 end examples
 
